@@ -31,4 +31,46 @@ PROPS = {
         "level_text": "Full-strength theorems (Props/C06.lean) for all 65536 words and all representable instructions, lifted from complete kernel-evaluated tables (decide +kernel over every word / every field combination; no native_decide, no bv_decide): decode succeeds iff the word is canonical per the ISA format table (specValid, written independently), error kinds, decode-then-encode and encode-then-decode identities. The same two exhaustive enumerations run on SimInstr::decode/encode on every check and are compared line by line with the model, so the theorems transfer to the code completely (modulo the harness). Defect F3 (JMP with bit 11 set decoded as JMP) was repaired in /repo (fix: commit 3ea9aa0).",
         "level_note": BASE_NOTE + "Correspondence is exhaustive in both tiers (65536 words + 49,481 instructions).",
     },
+    "C08": {
+        "sub": "c08", "functional": True,
+        "status": "partial: ISA-card theorems for the step structure (interrupt gate / fetch / execute), all operate, control and load/store instructions, access-violation and plain-memory access lemmas, RTI in user mode; trap/interrupt entry, RTI in supervisor mode and exception vectoring are covered by the correspondence run and by C10/C12 theorems as they are added",
+        "assumptions": ["non-strict mode (strict mode is C14)", "devices behave as Model/Dev.lean says (compared with the real devices in every run)"],
+        "level_text": "Machine-checked ISA-card theorems about the model's step for every machine state (Props/C08.lean): the step is poll -> gated interrupt entry | external interrupt error | fetch-decode-execute; each operate/control/load/store instruction's execute stage equals the ISA effect (registers, CC, PC, memory via readMem/writeMem at the ISA effective address, sign-extended offsets, wrapping arithmetic), user-privilege accesses outside x3000-xFDFF are access violations that change nothing, permitted plain-memory accesses read/write exactly that cell. The model is tied to /repo on every run: random machine states x 20-60 steps, every step's complete observable state (registers with init masks, PC, PSR, saved SP, frames, counters, changed memory cells, keyboard/display, observer, memory hash) compared with the real Simulator. Partial: entry/RTI/exception theorems are still being added; the statement proved so far is listed in evidence.coverage.statement_status.",
+        "level_note": BASE_NOTE + "The ISA reading (TRAP pushes PSR/PC and does not write R7, JSRR reads the base before linking, PSR MMIO mask) is part of the specification (DESIGN section 3). Correspondence is sampled.",
+    },
+    "C09": {
+        "sub": "c09", "functional": True,
+        "status": "partial: access-level confinement (every unprivileged access is in x3000-xFDFF or rejected before any effect), user-mode context, fetch violation, RTI, store frame; the closure over all instructions of a step is by C08's per-instruction reduction to readMem/writeMem with defaultCtx, and over runs by the correspondence oracle",
+        "assumptions": ["privilege checks enabled (ignore_privilege = false)"],
+        "level_text": "Theorems for every state (Props/C09.lean): a user-mode machine with checks on uses an unprivileged access context; an unprivileged access outside x3000-xFDFF returns AccessViolation having changed neither memory, registers, devices, PC, PSR nor observer; an unprivileged access that is performed lies in user space; a user-mode fetch outside user space fails before execution; RTI in user mode is a privilege violation with no state change; a user store either faults or writes exactly one user-space cell. Correspondence + oracle: adversarial user-mode states aimed at every boundary address with every addressing mode, real and virtual traps; the implementation is checked step by step against the model and against the confinement oracle (cells changed by a user-mode step are user-space cells, or the two supervisor-stack words of an entry).",
+        "level_note": BASE_NOTE + "Partial: the whole-step closure is assembled from per-instruction theorems, not yet one theorem over stepIn.",
+    },
+    "C14": {
+        "sub": "c14", "functional": True,
+        "status": "partial: conservativity, error-kind and no-error-when-initialised proved for the three primitives that consult the strict flag (get_if_init, set_if_init, set_pc peek) and read_mem's independence of it; whole-step strict_conservative is checked by the paired-run oracle and the model comparison",
+        "assumptions": ["F17/F18 repaired in /repo (fix: commit 5917735): the strict next-PC check is a pure memory peek"],
+        "level_text": "Theorems (Props/C14.lean, all inputs): get_if_init/set_if_init that succeed under strict return exactly the non-strict result; when they fail the error is the strict error passed in, and all nine such errors are classified strict; fully initialised words never fail; set_pc under strict either makes exactly the non-strict state change or fails with StrictJmpAddrUninit/StrictPCNextUninit, and cannot fail when the address word and target cell are initialised; read_mem ignores the strict flag; operate results on initialised words stay initialised (with C15). Correspondence + oracle: identical partially-initialised machine states run with strict off and on (and fully initialised machines), each step compared with the model and pairwise on the implementation: the first difference must be a strict error on the strict side, none on initialised machines.",
+        "level_note": BASE_NOTE + "Partial: whole-step conservativity is not yet a single theorem over stepIn.",
+    },
+    "C16": {
+        "sub": "c16", "functional": True,
+        "status": "full for the enumerated panic sites (DevInv invariant for devices[dev_id], in_alloca index, register slice width, prefetch_pc wrapping); partial by nature for allocation/stack exhaustion and custom ExternalDevice implementations",
+        "assumptions": ["frame_no < 2^64 - 1 (u64 increment)", "custom ExternalDevice implementations do not panic themselves", "F4 repaired in /repo (fix: commit a10dcd4)"],
+        "level_text": "The model is total; every Rust operation in the step path that can panic is discharged by a theorem (Props/C16.lean): DevInv (every port's device id indexes devices) holds for DeviceHandler::new and is preserved by set_port, set_keyboard/display, add_device, remove_device, io_read, io_write, io_reset and poll_interrupt, so devices[dev_id] is always in bounds; alloca[first_post-1] is in bounds; every register field sliced by decode is < 8 so Reg::try_from(..).unwrap() cannot fail; prefetch_pc is wrapping. Correspondence: random machine states with arbitrary PC incl. xFFFF/x0000, all 16 flag combinations, partially initialised words, devices, MMIO-mapped internal registers; steps + run_with_limit + prefetch_pc under catch_unwind, every result compared with the (panic-free) model.",
+        "level_note": BASE_NOTE + "Runtime behaviour no model exhibits (allocation failure, stack overflow) is out of reach; panics inside rand/logos are not modelled.",
+    },
+    "C27": {
+        "sub": "c27", "functional": True,
+        "status": "partial: push/pop depth arithmetic with saturation, frames.size = depth invariant under push/pop, pushed frame fields and argument lists per signature, built-in trap signatures, JSR/JSRR push, JMP R7 pops, operate instructions leave the stack alone; trap/interrupt/RTI events use the same push/pop and are compared with the implementation",
+        "assumptions": [],
+        "level_text": "Theorems (Props/C27.lean, all states): push_frame adds exactly one to the depth and appends exactly one frame holding caller, callee, kind, and the frame pointer/arguments prescribed by the callee's signature (calling convention: fp = R6-4, args M[fp+4..]; pass-by-register: those registers; none: empty), traps below x100 use the built-in table; pop_frame subtracts one saturating at zero and drops the last frame; frames.size = depth is preserved by both; JSR/JSRR push a subroutine frame, JMP R7 pops, other JMPs and operate instructions do not touch the stack. Correspondence: call-heavy programs with unbalanced returns, interrupts and registered signatures; depth and complete frame list compared after every step.",
+        "level_note": BASE_NOTE + "Partial: the fold-over-events statement for whole runs is assembled from the per-instruction theorems; not one theorem over runs yet.",
+    },
+    "C28": {
+        "sub": "c28", "functional": True,
+        "status": "full at the access level (read/write marking, untracked/rejected accesses, clearing); the identification of a step's accesses with the ISA's accesses is C08's per-instruction reduction to readMem/writeMem",
+        "assumptions": ["non-strict mode"],
+        "level_text": "Theorems (Props/C28.lean, all states): a tracked permitted read marks READ at exactly that address; a tracked non-strict write that takes effect marks WRITTEN and marks MODIFIED exactly when the stored Word (value or mask) changes, no other address is touched; untracked accesses (host contexts), accesses rejected by the privilege check and writes no device accepts leave the observer unchanged; step_in and run_while start from the empty observer. With C08's theorems (each instruction's accesses are readMem/writeMem at the ISA addresses with the tracking default context) this gives the property per step. Correspondence: after every step/run the implementation's observer (get_mem_accesses for all 65536 addresses, or take_mem_accesses) is compared with the model's, with tracked and untracked host accesses interleaved.",
+        "level_note": BASE_NOTE,
+    },
 }
